@@ -161,3 +161,8 @@ func DescribeDB(db *model.DB) []string {
 	}
 	return out
 }
+
+// FlowOf builds a flow key from literals.
+func FlowOf(sip, dip string, dport uint16, proto uint8) model.Flow {
+	return model.Flow{Sip: netip.MustParseAddr(sip), Dip: netip.MustParseAddr(dip), Dport: dport, Proto: proto}
+}
